@@ -41,7 +41,7 @@ const (
 
 func TestMain(m *testing.M) {
 	_ = flag.Set("logtostderr", "true") // glog: no log files in /tmp
-	vlib.Rule("C01: histories of <=40 operations (write / delete / mark read-only / mark writable / reopen by new Store or by unmount+mount) on a real storage.Store with one volume (needle map kind memory or leveldb, sync or async-fsync write path), over 6 needle ids (one >2^32, one >2^40, one >2^63), 2 cookies, payload lengths {0,1,7,8,9,255,256,random<=64KiB} drawn from a small per-history pool so that identical re-writes occur, names/mimes {absent,empty,short,255 B}, pairs {absent, small JSON, ~3 KiB JSON}, last-modified {absent,past,future,2^40-1}, gzip/manifest flags, optional per-needle TTL; plus bounded-exhaustive enumeration of all canonical operation sequences over 2 keys x 2 cookies x {empty, 1-byte, same-as-stored} payloads, delete and reopen up to length 3 (quick) / 4 (thorough), and up to length 5 on a single key (thorough). After every operation all keys are read back and compared with a reference map. Non-trivial = the history contains an overwrite or a delete of a key that is read afterwards (reads follow every step). Distinct = distinct canonical operation sequence.")
+	vlib.Rule("C01: histories of <=40 operations (write / delete / mark read-only / mark writable / reopen by new Store or by unmount+mount) on a real storage.Store with one volume (needle map kind memory or leveldb, sync or async-fsync write path), over 6 needle ids (one >2^32, one >2^40, one >2^63), 2 cookies, payload lengths {0,1,7,8,9,255,256,random<=64KiB} drawn from a small per-history pool so that identical re-writes occur, names/mimes {absent,empty,short,255 B}, pairs {absent, small JSON, ~3 KiB JSON}, last-modified {absent,past,future,2^40-1}, gzip/manifest flags, optional per-needle TTL; in 2 of 5 histories a prologue first populates the index section with id 1 and 130..400 ascending ids (1000,1002,..) and the history then runs over ids that arrive late (far below the range and adjacent: 500,501,502,2; 150 and 20 entries behind the newest id), ids inside/at the end of/above the range and one id of another section, so that the in-memory map's overflow list and look-back insertion are used, and all prologue blobs are read back after every reopen and at the end; plus bounded-exhaustive enumeration of all canonical operation sequences over 2 keys x 2 cookies x {empty, 1-byte, same-as-stored} payloads, delete and reopen up to length 3 (quick) / 4 (thorough), and up to length 5 on a single key (thorough). After every operation all keys are read back and compared with a reference map. Non-trivial = the history contains an overwrite or a delete of a key that is read afterwards (reads follow every step). Distinct = distinct canonical operation sequence.")
 	vlib.Assume("C01: storage-level part only. Read/delete with a wrong cookie is decided in the HTTP handlers and is not exercised here. A write reported as 'unchanged' (HTTP 204) is treated as not being a write: the oracle then requires that data, name, mime, pairs and flags of the request equal what is stored (the report is truthful) and lets last-modified stay. A write to a *deleted* id with another cookie may be accepted or rejected (the statement does not say; the index keeps the old offset for memory maps and forgets it for regenerated leveldb maps). Per-needle TTLs are >= 2 hours so that nothing expires during a case.")
 	vlib.Main(m)
 }
@@ -217,7 +217,9 @@ type machine struct {
 	model    map[uint64]*entry
 	trace    []string
 	classes  map[string]bool
-	rewrote  bool // an overwrite or delete of an existing key happened (and was read back)
+	rewrote  bool            // an overwrite or delete of an existing key happened (and was read back)
+	extra    []uint64        // prologue keys outside the key universe (checked after reopen and at the end)
+	late     map[uint64]bool // universe keys that arrive out of order behind the prologue keys
 }
 
 func newStore(dir string, kind storage.NeedleMapKind) *storage.Store {
@@ -344,6 +346,9 @@ func (m *machine) write(key uint64, b *blob) {
 			if len(b.data) == 0 {
 				m.classes["write-empty"] = true
 			}
+			if m.late[key] {
+				m.classes["write-late-key"] = true
+			}
 			e.state, e.blob = live, b
 		}
 	}
@@ -385,6 +390,9 @@ func (m *machine) del(key uint64, cookie uint32) {
 			m.fail("delete of live %s failed: %v", kname(m.keys, key), err)
 		}
 		m.classes["delete-live"] = true
+		if m.late[key] {
+			m.classes["delete-live-late-key"] = true
+		}
 		if len(e.blob.data) == 0 {
 			m.classes["delete-live-empty"] = true
 		} else if size <= 0 {
@@ -447,11 +455,15 @@ func (m *machine) reopen(byMount bool) {
 	}
 	m.readonly = false
 	m.checkAll()
+	m.checkKeys(m.extra)
 }
 
-// checkAll reads every key and compares with the model.
-func (m *machine) checkAll() {
-	for _, k := range m.keys {
+// checkAll reads every key of the key universe and compares with the model.
+func (m *machine) checkAll() { m.checkKeys(m.keys) }
+
+// checkKeys reads the given keys and compares with the model.
+func (m *machine) checkKeys(keys []uint64) {
+	for _, k := range keys {
 		e := m.model[k]
 		n := &needle.Needle{Id: types.NeedleId(k)}
 		count, err := m.store.ReadVolumeNeedle(m.vid, n, nil)
@@ -503,6 +515,77 @@ func (m *machine) liveEmpty() bool {
 // ------------------------------------------------------------------ random histories
 
 var keySpace = []uint64{1, 2, 9, 1<<32 + 5, 1<<40 + 3, 1<<63 + 11}
+
+// Populated-section prologue.
+//
+// The in-memory needle map (needle_map/compact_map.go) appends keys that arrive
+// in increasing order to CompactSection.values. A NEW key that is smaller than
+// the newest one is inserted in place only while the section holds fewer than
+// `batch` (100000) keys AND the key is larger than values[counter-128] (the
+// `lookBackIndex := cs.counter - 128` test in CompactSection.Set); otherwise it
+// goes to the section's sorted `overflow` list, which Set/Get/Delete handle
+// through separate code (setOverflowEntry / findOverflowEntry /
+// deleteOverflowEntry). With the 6 ids of keySpace a section never holds more
+// than 128 keys, so neither the look-back insertion nor the overflow list is
+// reached. The prologue therefore writes key 1 (so that the section starts low)
+// and n in [130,400] tiny blobs with ascending even keys proBase, proBase+2, ...
+// and the key universe of the history is replaced by ids that arrive late:
+// far below the populated range and adjacent to each other (overflow), a new odd
+// id 150 entries behind the newest key (overflow), a new odd id 20 entries
+// behind (in-place look-back insertion), plus ids already inside, at the end of
+// and above the range, and one id of another section. It is applied for every
+// needle map kind; only the memory kind has this structure.
+const proBase = 1000
+
+func proKeys(n int) []uint64 {
+	ks := make([]uint64, 0, n+1)
+	ks = append(ks, 1)
+	for i := 0; i < n; i++ {
+		ks = append(ks, proBase+2*uint64(i))
+	}
+	return ks
+}
+
+// proUniverse returns the key universe used behind a prologue of n keys and the
+// subset of it that arrives late (new ids below the newest prologue key).
+func proUniverse(n int) (universe []uint64, late map[uint64]bool) {
+	last := proBase + 2*uint64(n-1)
+	lateKeys := []uint64{500, 501, 502, 2, last - 2*150 + 1, last - 2*20 + 1}
+	late = map[uint64]bool{}
+	for _, k := range lateKeys {
+		late[k] = true
+	}
+	universe = []uint64{500, last - 2*150 + 1, 501, proBase + 2*uint64(n/2), 2, last - 2*20 + 1, last, 502, last + 7, 1<<40 + 3, 1}
+	return universe, late
+}
+
+// prologue populates the section. It is not part of the generated (shrinkable)
+// operation list: everything is derived from n and written through the plain
+// (non-fsync) write path without per-step read-back.
+func (m *machine) prologue(n int, cookie uint32) {
+	inUniverse := map[uint64]bool{}
+	for _, k := range m.keys {
+		inUniverse[k] = true
+	}
+	for _, k := range proKeys(n) {
+		b := &blob{cookie: cookie, data: fill(k, 1+int(k%3)), dtag: fmt.Sprintf("%dB/%x", 1+k%3, k)}
+		if _, err := m.store.WriteVolumeNeedle(m.vid, b.needle(k), false); err != nil {
+			m.fail("prologue write of id %d: %v", k, err)
+		}
+		m.model[k] = &entry{state: live, blob: b}
+		if !inUniverse[k] {
+			m.extra = append(m.extra, k)
+		}
+	}
+	var names []string
+	for i, k := range m.keys {
+		names = append(names, fmt.Sprintf("k%d=%d", i, k))
+	}
+	m.log(fmt.Sprintf("PROLOGUE(ids 1,%d,%d..%d c=%08x) KEYS[%s]", proBase, proBase+2, proBase+2*(n-1), cookie, strings.Join(names, " ")))
+	m.classes["prologue-populated-section"] = true
+	m.checkAll()
+	m.checkKeys(m.extra)
+}
 
 type pools struct {
 	data  [][2]uint64 // seed, len
@@ -611,14 +694,27 @@ func TestPropHistories(t *testing.T) {
 		cookies := [2]uint32{
 			rapid.OneOf(rapid.Uint32(), rapid.SampledFrom([]uint32{0, 1, 0xffffffff})).Draw(t, "cookie0"), 0}
 		cookies[1] = cookies[0] ^ rapid.Uint32Range(1, 0xffffffff).Draw(t, "cookieDelta")
-		nk := rapid.IntRange(1, len(keySpace)).Draw(t, "keys")
-		keys := append([]uint64{}, keySpace...)
+		// populated-section prologue (see proKeys): one drawn count, 0 = none
+		pro := 0
+		if rapid.IntRange(0, 4).Draw(t, "populate") >= 3 {
+			pro = rapid.IntRange(130, 400).Draw(t, "prologueKeys")
+		}
+		universe, late := keySpace, map[uint64]bool(nil)
+		if pro > 0 {
+			universe, late = proUniverse(pro)
+		}
+		nk := rapid.IntRange(1, len(universe)).Draw(t, "keys")
+		keys := append([]uint64{}, universe...)
 		// which keys are used (a drawn rotation, so that large ids can come first)
 		rot := rapid.IntRange(0, len(keys)-1).Draw(t, "keyRotation")
 		keys = append(keys[rot:], keys[:rot]...)[:nk]
 		p := genPools(t)
 		m := newMachine(t, kind, async, keys)
 		defer m.close()
+		if pro > 0 {
+			m.late = late
+			m.prologue(pro, cookies[0])
+		}
 		nops := rapid.IntRange(1, 40).Draw(t, "ops")
 		for i := 0; i < nops; i++ {
 			key := keys[rapid.IntRange(0, len(keys)-1).Draw(t, "key")]
@@ -655,6 +751,7 @@ func TestPropHistories(t *testing.T) {
 		if async {
 			cls = append(cls, "async-fsync-path")
 		}
+		m.checkKeys(m.extra) // the untouched prologue blobs are still what was written
 		for c := range m.classes {
 			cls = append(cls, c)
 		}
